@@ -257,8 +257,6 @@ def main():
     sw = slot_writers(root)
     w("def slotWriters : List String := [" + ", ".join(f"\"{x}\"" for x in sw) + "]")
     w(f"def slotWritesOnlyFresh : Bool := {lean_bool(slot_writes_only_fresh(root))}")
-    wr = wiring(root)
-    w("def wiring : List (String × List String) := [" + ", ".join("(\"%s\", [%s])" % (k, ", ".join('"%s"' % x for x in v)) for k, v in wr) + "]")
     g = gil_facts(root)
     for k, v in g.items():
         w(f"def {k} : Bool := {lean_bool(v)}")
